@@ -149,6 +149,8 @@ def tlc_eval(module, cfg, tag, env=None, timeout=900, xmx="6g"):
     return _clean(p.stdout + p.stderr)
 
 
+COMMON_DIMENSIONS = '; every corpus also varies: attribute order and splitting, non-strum and #[doc(..)] attributes between strum ones, literal source forms, keyword-like values and property keys, raw / lower-case / generated-name-like / Latin-1 variant identifiers, type names shared between modules, declaration through macro_rules! (name, repr, paths, discriminant fragments as arguments), inherent decoys and a blanket helper trait next to the derive, payloads of zero-sized / array / tuple / Option / decoy types and (on disabled variants) a type whose Default panics'
+
 _MIS = re.compile(r'^"MISMATCH@(\d+)@(.*)"$')
 _NOTE = re.compile(r'^"NOTE@(\d+)@(.*)"$')
 
